@@ -305,7 +305,7 @@ def validate_hist(run, traces, label='hist', constants=None, timeout=3000, engin
     for t in traces:
         run.traces += 1
         run.evaluations += sum(1 for e in t['ev'] if e['e'] == 'parse')
-        run.distinct.add(json.dumps(t['case'], sort_keys=True))
+        run.distinct.add(hashlib.sha1(json.dumps(t['case'], sort_keys=True).encode()).digest()[:12])
         if t['tid'] in acc:
             continue
         if t['tid'] not in rej:
@@ -326,7 +326,7 @@ def tally(run, obs, verdicts, engine, nontrivial=None, key=None):
         run.evaluations += 1
         k = key(o) if key else json.dumps(o['in'], sort_keys=True)
         if nontrivial is None or nontrivial(o):
-            run.distinct.add(k)
+            run.distinct.add(hashlib.sha1(k.encode()).digest()[:12])
         if v[0] == 'ok':
             continue
         if v[0] == 'dev':
